@@ -354,6 +354,11 @@ fn extract_const_value(
         else {
             return Err(CompilationError::UnsupportedConstType);
         };
+        // A const of a zero-sized type has no values. Such consts cost nothing in size, so they can
+        // be nested into a DAG that is exponentially larger than the program when walked as a tree.
+        if program_info.type_sizes.get(&const_type.inner_ty) == Some(&0) {
+            continue;
+        }
         let inner_type = program_info.registry.get_type(&const_type.inner_ty).unwrap();
         match inner_type {
             CoreTypeConcrete::Struct(_) => {
